@@ -5,3 +5,4 @@ import DnsModel.Msg
 import DnsModel.Compress
 import DnsModel.Truncate
 import DnsModel.Dedup
+import DnsModel.Heap
